@@ -416,7 +416,8 @@ type fctx struct {
 	recv        string // receiver variable name ("" if none)
 	recvVal     bool   // pointer receiver modelled as the struct itself (recv_nonnil)
 	recvMut     bool   // receiver is a pointer whose fields are assigned
-	paramMut    []string // pointer-to-struct parameters whose fields are assigned (returned after the receiver)
+	// paramMut: pointer-to-struct parameters whose fields are assigned (returned after the receiver).
+	paramMut    []string
 	results     []*types.Var
 	named       bool
 	opaque      []string // extra parameters "name : Type"
